@@ -1,205 +1,343 @@
-(* C18 - lemmas about the generated programs gen/Pre.v run by the interpreter of
-   Model.v.  Part 1: what holds for ARBITRARY sample operations (hence also
-   for IEEE float64): values, aliasing, generator use.  Part 2: an arbitrary
-   commutative ring (linearity, coefficient 0, torch forms). *)
+(* C18 - lemmas behind Props.v.  Part 1: property clauses for ARBITRARY sample
+   operations (hence also for IEEE float64).  Part 2: an arbitrary commutative
+   ring (linearity, coefficient 0, signal independence, torch forms). *)
 From Coq Require Import ZArith List Bool Lia Ring.
-From Verif Require Import C18.Model gen.Pre.
+From Verif Require Import C18.Model gen.Pre C18.Run.
 Import ListNotations.
 Open Scope Z_scope.
 
-(* ------------------------------------------------------------ list facts *)
-Lemma slice_get_from1 : forall A (l : list A), slice_get (Some 1) None l = tl l.
-Proof.
-  intros A l. unfold slice_get, slice_bounds, norm_idx.
-  destruct l as [|x t]; [reflexivity|].
-  cbn [length tl]. change (1 <? 0) with false. cbv iota.
-  replace (Z.to_nat (Z.min 1 (Z.of_nat (S (length t))))) with 1%nat by lia.
-  replace (Z.to_nat (Z.max (Z.min 1 (Z.of_nat (S (length t)))) (Z.of_nat (S (length t)))))
-    with (S (length t)) by lia.
-  cbn [skipn]. replace (S (length t) - 1)%nat with (length t) by lia.
-  apply firstn_all.
-Qed.
-
-Lemma slice_get_to_m1 : forall A (l : list A), slice_get None (Some (-1)) l = removelast l.
-Proof.
-  intros A l. unfold slice_get, slice_bounds, norm_idx.
-  change (-1 <? 0) with true. cbv iota.
-  change (Z.to_nat 0) with 0%nat. cbn [skipn].
-  rewrite removelast_firstn_len. f_equal. lia.
-Qed.
-
-Lemma slice_get_all : forall A (l : list A), slice_get None None l = l.
-Proof.
-  intros A l. unfold slice_get, slice_bounds, norm_idx.
-  change (Z.to_nat 0) with 0%nat. cbn [skipn].
-  replace (Z.to_nat (Z.max 0 (Z.of_nat (length l))) - 0)%nat with (length l) by lia.
-  apply firstn_all.
-Qed.
-
-Lemma slice_set_from1 : forall A (l v : list A), slice_set (Some 1) None l v = firstn 1 l ++ v.
-Proof.
-  intros A l v. unfold slice_set, slice_bounds, norm_idx.
-  change (1 <? 0) with false. cbv iota.
-  replace (Z.to_nat (Z.max (Z.min 1 (Z.of_nat (length l))) (Z.of_nat (length l))))
-    with (length l) by lia.
-  rewrite skipn_all, app_nil_r.
-  destruct l as [|x t]; [reflexivity|].
-  cbn [length]. replace (Z.to_nat (Z.min 1 (Z.of_nat (S (length t))))) with 1%nat by lia.
-  reflexivity.
-Qed.
-
-Lemma slice_set_all : forall A (l v : list A), slice_set None None l v = v.
-Proof.
-  intros A l v. unfold slice_set, slice_bounds, norm_idx.
-  change (Z.to_nat 0) with 0%nat.
-  replace (Z.to_nat (Z.max 0 (Z.of_nat (length l)))) with (length l) by lia.
-  rewrite skipn_all, app_nil_r. reflexivity.
-Qed.
-
-Lemma length_removelast : forall A (l : list A), length (removelast l) = pred (length l).
-Proof.
-  intros A l. rewrite removelast_firstn_len, firstn_length. lia.
-Qed.
-
-Lemma length_tl : forall A (l : list A), length (tl l) = pred (length l).
-Proof. now destruct l. Qed.
-
-Lemma zipw_length : forall A B C (f : A -> B -> C) l m,
-  length l = length m -> length (zipw f l m) = length l.
-Proof.
-  induction l; destruct m; cbn; intros; try lia. f_equal. apply IHl. lia.
-Qed.
-
-Section AnyOps.
+(* ------------------------------------------------------------------------
+   Property clauses for arbitrary sample operations (so in particular for
+   IEEE float64 arithmetic and the C casts numpy performs). *)
+Section Clauses.
 Context {V RS : Type}.
 Variable O : ops V.
 Variable G : rngm V RS.
 
-(* the slice statement computes the documented recurrence, reading old samples *)
-Lemma zip_is_rec : forall c x t,
-  zipw (o_sub O) t (map (o_mul O c) (removelast (x :: t))) = preemph_rec O c x t.
+(* Preemphasize.apply returns, in the input dtype, the float64 recurrence *)
+Lemma preemph_values_l : forall c ip ax d x r, axis_ok ax = true ->
+  let s := run O G c ip ax preemph_prog (Build_arr d x) r in
+  s_err s = false /\
+  out_arr s = Some (Build_arr d (conv O F64 d (preemph_spec O c (conv O d F64 x)))).
+Proof. intros. destruct (preemph_run_all O G c ip ax d x r H) as (A & _ & _ & B & _). now split. Qed.
+
+(* ... where the recurrence is y[0] = w[0], y[i+1] = w[i+1] - c * w[i], at every length *)
+Lemma preemph_recurrence_l : forall c w dflt,
+  length (preemph_spec O c w) = length w /\
+  nth 0 (preemph_spec O c w) dflt = nth 0 w dflt /\
+  forall i, (S i < length w)%nat ->
+    nth (S i) (preemph_spec O c w) dflt = o_sub O (nth (S i) w dflt) (o_mul O c (nth i w dflt)).
 Proof.
-  intros c x t. revert x. induction t as [|y t IH]; intros x; [reflexivity|].
-  change (removelast (x :: y :: t)) with (x :: removelast (y :: t)).
-  cbn [map zipw preemph_rec]. f_equal. apply IH.
+  intros. split; [apply preemph_spec_length|]. split; [apply preemph_spec_nth0|].
+  intros. now apply preemph_spec_nthS.
 Qed.
 
-Lemma slices_are_spec : forall c w,
-  firstn 1 w ++ zipw (o_sub O) (tl w) (map (o_mul O c) (removelast w)) = preemph_spec O c w.
+(* the input array is left untouched unless in_place is set on a float64 array ... *)
+Lemma preemph_input_untouched_l : forall c ip ax d x r, axis_ok ax = true ->
+  ip = false \/ d <> F64 ->
+  let s := run O G c ip ax preemph_prog (Build_arr d x) r in
+  input_after s = Build_arr d x /\ aliases_input s = false.
 Proof.
-  intros c [|x t]; [reflexivity|]. cbn [firstn tl app preemph_spec]. f_equal. apply zip_is_rec.
+  intros c ip ax d x r H Hc. destruct (preemph_run_all O G c ip ax d x r H) as (_ & _ & _ & _ & B).
+  assert (E : ip && dtype_eqb d F64 = false).
+  { destruct Hc as [->|Hd]; [reflexivity|]. destruct d; try (now rewrite andb_false_r). now elim Hd. }
+  rewrite E in B. cbv zeta. tauto.
 Qed.
 
-Lemma preemph_spec_length : forall c w, length (preemph_spec O c w) = length w.
+(* ... in which case the returned array IS the input array, holding the same values *)
+Lemma preemph_in_place_l : forall c ax x r, axis_ok ax = true ->
+  let s := run O G c true ax preemph_prog (Build_arr F64 x) r in
+  aliases_input s = true /\ out_arr s = Some (input_after s) /\
+  out_arr s = out_arr (run O G c false ax preemph_prog (Build_arr F64 x) r).
 Proof.
-  intros c [|x t]; [reflexivity|]. cbn. f_equal. revert x.
-  induction t; intros; cbn; [reflexivity|]. f_equal. apply IHt.
+  intros c ax x r H.
+  destruct (preemph_run_all O G c true ax F64 x r H) as (_ & _ & _ & A & B & B').
+  destruct (preemph_run_all O G c false ax F64 x r H) as (_ & _ & _ & A' & _).
+  cbv zeta. rewrite A, A', B'. auto.
 Qed.
 
-(* position-wise reading of the recurrence, for every length *)
-Lemma preemph_rec_nth : forall c t x i dflt, (i < length t)%nat ->
-  nth i (preemph_rec O c x t) dflt =
-  o_sub O (nth i t dflt) (o_mul O c (nth i (x :: t) dflt)).
+(* in_place never changes the values returned, whatever the dtype *)
+Lemma preemph_in_place_same_values_l : forall c ax d x r, axis_ok ax = true ->
+  out_arr (run O G c true ax preemph_prog (Build_arr d x) r) =
+  out_arr (run O G c false ax preemph_prog (Build_arr d x) r).
 Proof.
-  intros c t. induction t as [|y t IH]; intros x i dflt Hi; [cbn in Hi; lia|].
-  destruct i; [reflexivity|]. cbn [preemph_rec nth]. rewrite IH by (cbn in Hi; lia).
-  reflexivity.
+  intros c ax d x r H.
+  destruct (preemph_run_all O G c true ax d x r H) as (_ & _ & _ & A & _).
+  destruct (preemph_run_all O G c false ax d x r H) as (_ & _ & _ & A' & _).
+  now rewrite A, A'.
 Qed.
 
-Lemma preemph_spec_nth0 : forall c w dflt, nth 0 (preemph_spec O c w) dflt = nth 0 w dflt.
-Proof. intros c [|x t] dflt; reflexivity. Qed.
+(* Preemphasize does not touch the random generator *)
+Lemma preemph_rng_l : forall c ip ax d x r, axis_ok ax = true ->
+  s_rng (run O G c ip ax preemph_prog (Build_arr d x) r) = r.
+Proof. intros. now destruct (preemph_run_all O G c ip ax d x r H) as (_ & A & _). Qed.
 
-Lemma preemph_spec_nthS : forall c w i dflt, (S i < length w)%nat ->
-  nth (S i) (preemph_spec O c w) dflt =
-  o_sub O (nth (S i) w dflt) (o_mul O c (nth i w dflt)).
+(* Dither.apply: float64 sum of the signal and a noise vector that is a
+   function of (coeff, generator state, length) only *)
+Lemma dither_values_l : forall c ip ax d x r, axis_ok ax = true ->
+  let s := run O G c ip ax dither_prog (Build_arr d x) r in
+  s_err s = false /\
+  out_arr s = Some (Build_arr d (conv O F64 d
+     (zipw (o_add O) (conv O d F64 x) (noise_of O c (g_draw G r (length x)))))) /\
+  s_rng s = g_adv G r (length x).
+Proof. intros. destruct (dither_run_all O G c ip ax d x r H) as (A & C & _ & B & _). now repeat split. Qed.
+
+Lemma dither_input_untouched_l : forall c ip ax d x r, axis_ok ax = true ->
+  ip = false \/ d <> F64 ->
+  let s := run O G c ip ax dither_prog (Build_arr d x) r in
+  input_after s = Build_arr d x /\ aliases_input s = false.
 Proof.
-  intros c [|x t] i dflt Hi; [cbn in Hi; lia|].
-  cbn [preemph_spec nth]. rewrite preemph_rec_nth by (cbn in Hi; lia). reflexivity.
+  intros c ip ax d x r H Hc. destruct (dither_run_all O G c ip ax d x r H) as (_ & _ & _ & _ & B).
+  assert (E : ip && dtype_eqb d F64 = false).
+  { destruct Hc as [->|Hd]; [reflexivity|]. destruct d; try (now rewrite andb_false_r). now elim Hd. }
+  rewrite E in B. cbv zeta. tauto.
 Qed.
 
-(* ---- the statement  signal[..., 1:] -= self.coeff * signal[..., :-1]  *)
-Lemma conv_same : forall d l, conv O d d l = l.
-Proof. intros d l. unfold conv. now destruct d. Qed.
-
-Lemma aug_preemph_f64 : forall c (s : state V RS),
-  a_dt (cur s) = F64 ->
-  exec_aug O G c (OSub) (Some 1) None (EMulCoeff (ESig None (Some (-1)))) s =
-  set_cur s (Build_arr F64 (preemph_spec O c (a_data (cur s)))) (s_rng s).
+Lemma dither_in_place_l : forall c ax x r, axis_ok ax = true ->
+  let s := run O G c true ax dither_prog (Build_arr F64 x) r in
+  aliases_input s = true /\ out_arr s = Some (input_after s) /\
+  out_arr s = out_arr (run O G c false ax dither_prog (Build_arr F64 x) r).
 Proof.
-  intros c s Hd. unfold exec_aug. cbn [aeval].
-  rewrite Hd. cbn [is_float negb]. rewrite !conv_same.
-  rewrite slice_get_from1, slice_get_to_m1, map_length, length_removelast, length_tl.
-  rewrite Nat.eqb_refl. cbn [negb].
-  rewrite slice_set_from1. cbn [binop]. now rewrite slices_are_spec.
+  intros c ax x r H.
+  destruct (dither_run_all O G c true ax F64 x r H) as (_ & _ & _ & A & B & B').
+  destruct (dither_run_all O G c false ax F64 x r H) as (_ & _ & _ & A' & _).
+  cbv zeta. rewrite A, A', B'. auto.
 Qed.
 
-Lemma g_draw_length : forall r n, length (g_draw G r n) = n.
-Proof. intros. unfold g_draw. now rewrite map_length, seq_length. Qed.
+Lemma dither_in_place_same_values_l : forall c ax d x r, axis_ok ax = true ->
+  out_arr (run O G c true ax dither_prog (Build_arr d x) r) =
+  out_arr (run O G c false ax dither_prog (Build_arr d x) r).
+Proof.
+  intros c ax d x r H.
+  destruct (dither_run_all O G c true ax d x r H) as (_ & _ & _ & A & _).
+  destruct (dither_run_all O G c false ax d x r H) as (_ & _ & _ & A' & _).
+  now rewrite A, A'.
+Qed.
 
-Lemma zipw_noise : forall c l g,
-  zipw (o_add O) l (map (normal_of O c) g) = dither_spec O c l g.
+(* reproducibility: the result is a function of the generator state at the
+   call; two calls from the same state on signals of the same length add the
+   SAME noise vector, whatever the signals hold *)
+Lemma dither_noise_function_of_state_l : forall c ip ip' ax ax' d d' x x' r,
+  axis_ok ax = true -> axis_ok ax' = true -> length x = length x' ->
+  exists nz, length nz = length x /\
+    out_arr (run O G c ip ax dither_prog (Build_arr d x) r) =
+      Some (Build_arr d (conv O F64 d (zipw (o_add O) (conv O d F64 x) nz))) /\
+    out_arr (run O G c ip' ax' dither_prog (Build_arr d' x') r) =
+      Some (Build_arr d' (conv O F64 d' (zipw (o_add O) (conv O d' F64 x') nz))).
+Proof.
+  intros c ip ip' ax ax' d d' x x' r H H' L.
+  exists (noise_of O c (g_draw G r (length x))). split.
+  - unfold noise_of. now rewrite map_length, g_draw_length.
+  - destruct (dither_values_l c ip ax d x r H) as (_ & A & _).
+    destruct (dither_values_l c ip' ax' d' x' r H') as (_ & A' & _).
+    rewrite A, A', L. auto.
+Qed.
+
+(* the deprecated axis argument only triggers the warning *)
+Lemma axis_only_warns_l : forall c ip ax d x r, axis_ok ax = true ->
+  out_arr (run O G c ip ax preemph_prog (Build_arr d x) r) =
+    out_arr (run O G c ip None preemph_prog (Build_arr d x) r) /\
+  out_arr (run O G c ip ax dither_prog (Build_arr d x) r) =
+    out_arr (run O G c ip None dither_prog (Build_arr d x) r) /\
+  s_warn (run O G c ip ax preemph_prog (Build_arr d x) r) = negb (opt_eqb ax None) /\
+  s_warn (run O G c ip ax dither_prog (Build_arr d x) r) = negb (opt_eqb ax None).
+Proof.
+  intros c ip ax d x r H.
+  destruct (preemph_run_all O G c ip ax d x r H) as (_ & _ & W & A & _).
+  destruct (preemph_run_all O G c ip None d x r eq_refl) as (_ & _ & _ & A' & _).
+  destruct (dither_run_all O G c ip ax d x r H) as (_ & _ & W2 & B & _).
+  destruct (dither_run_all O G c ip None d x r eq_refl) as (_ & _ & _ & B' & _).
+  rewrite A, A', B, B'. auto.
+Qed.
+
+(* ---- torch functional forms, arbitrary operations *)
+Lemma skipn1_app1 : forall A (z : A) l, tl ([z] ++ l) = l.
 Proof. reflexivity. Qed.
 
-Lemma aug_dither_f64 : forall c sh (s : state V RS),
-  a_dt (cur s) = F64 ->
-  exec_aug O G c (OAdd) None None (ENormal sh) s =
-  set_cur s (Build_arr F64 (dither_spec O c (a_data (cur s))
-                              (g_draw G (s_rng s) (length (a_data (cur s))))))
-            (g_adv G (s_rng s) (length (a_data (cur s)))).
+Lemma removelast_cons_app : forall A (z : A) l, removelast (z :: l) = firstn (length l) (z :: l).
+Proof. intros. rewrite removelast_firstn_len. reflexivity. Qed.
+
+Lemma zip_rec_cons : forall c z l,
+  zipw (o_sub O) l (map (o_mul O c) (removelast (z :: l))) = preemph_rec O c z l.
+Proof. intros. apply zip_is_rec. Qed.
+
+Lemma torch_preemph_run_l : forall c x (r : RS),
+  trun O G c torch_preemph_prog x r = (Some (preemph_rec O c (o_zero O) x), r).
 Proof.
-  intros c sh s Hd. unfold exec_aug. cbn [aeval].
-  rewrite Hd. cbn [is_float negb]. rewrite !conv_same.
-  rewrite slice_get_all, map_length, g_draw_length, Nat.eqb_refl. cbn [negb].
-  rewrite slice_set_all. reflexivity.
+  intros c x r. unfold trun, torch_preemph_prog. cbn [t_assigns t_ret trun_assigns teval].
+  change (Z.to_nat 1) with 1%nat. cbn [repeat app].
+  cbn [option_map]. rewrite slice_get_from1, slice_get_to_m1. cbn [tl].
+  unfold tzip. rewrite map_length, length_removelast. cbn [length pred]. rewrite ?app_nil_r.
+  rewrite Nat.eqb_refl. now rewrite zip_rec_cons.
 Qed.
 
-
-Lemma conv_length : forall a b l, length (conv O a b l) = length l.
-Proof. intros. unfold conv. destruct (dtype_eqb a b); [reflexivity|apply map_length]. Qed.
-
-Lemma axis_ok_cases : forall ax, axis_ok ax = true -> ax = None \/ ax = Some 0 \/ ax = Some (-1).
+Lemma torch_dither_run_l : forall c x (r : RS),
+  trun O G c torch_dither_prog x r =
+  (Some (zipw (o_add O) x (map (o_mul O c) (g_draw G r (length x)))), g_adv G r (length x)).
 Proof.
-  intros [k|] H; [|now left]. right. cbn in H. apply orb_true_iff in H.
-  destruct H as [H|H]; apply Z.eqb_eq in H; subst; auto.
+  intros c x r. unfold trun, torch_dither_prog. cbn [t_assigns t_ret trun_assigns teval option_map].
+  unfold tzip. rewrite map_length, g_draw_length, Nat.eqb_refl. reflexivity.
 Qed.
 
-Local Arguments exec_aug : simpl never.
-Local Arguments conv : simpl never.
-Local Arguments preemph_spec : simpl never.
-Local Arguments dither_spec : simpl never.
-Local Arguments g_draw : simpl never.
+End Clauses.
 
-(* ---- Preemphasize.apply, every dtype / in_place / axis a 1-D signal accepts *)
-Lemma preemph_run_all : forall c ip ax d x r, axis_ok ax = true ->
-  let s := run O G c ip ax preemph_prog (Build_arr d x) r in
-  let y := via_f64 O d (preemph_spec O c) x in
-  s_err s = false /\ s_rng s = r /\ s_warn s = negb (opt_eqb ax None) /\
-  out_arr s = Some (Build_arr d y) /\
-  (if ip && dtype_eqb d F64
-   then aliases_input s = true /\ input_after s = Build_arr d y
-   else aliases_input s = false /\ input_after s = Build_arr d x).
+(* ------------------------------------------------------------------------
+   Part 2.  Samples in an arbitrary commutative ring (the reals, the
+   rationals, the integers ...), conversions between dtypes exact. *)
+Section RingInst.
+Variable R : Type.
+Variables (rO rI : R) (radd rmul rsub : R -> R -> R) (ropp : R -> R).
+Hypothesis Rth : ring_theory rO rI radd rmul rsub ropp (@eq R).
+Add Ring Rring : Rth.
+Context {RS : Type}.
+Variable G : rngm R RS.
+
+Definition ring_ops : ops R :=
+  {| o_zero := rO; o_add := radd; o_sub := rsub; o_mul := rmul; o_cast := fun _ _ x => x |}.
+
+Lemma conv_ring : forall a b l, conv ring_ops a b l = l.
+Proof. intros. unfold conv. destruct (dtype_eqb a b); [reflexivity|]. cbn. apply map_id. Qed.
+
+Lemma zipw_add_zero_noise : forall x g, length g = length x ->
+  zipw radd x (noise_of ring_ops rO g) = x.
 Proof.
-  intros c ip ax d x r Hax.
-  destruct (axis_ok_cases ax Hax) as [->|[->| ->]]; destruct ip, d;
-    unfold run, preemph_prog, via_f64; cbv -[exec_aug conv preemph_spec dither_spec g_draw];
-    rewrite aug_preemph_f64 by reflexivity; cbv -[exec_aug conv preemph_spec dither_spec g_draw]; rewrite ?conv_same; repeat split.
+  induction x as [|a x IH]; intros [|z g] H; cbn in *; try reflexivity; try discriminate.
+  f_equal; [ring|]. apply IH. lia.
 Qed.
 
-(* ---- Dither.apply *)
-Lemma dither_run_all : forall c ip ax d x r, axis_ok ax = true ->
-  let s := run O G c ip ax dither_prog (Build_arr d x) r in
-  let g := g_draw G r (length x) in
-  let y := via_f64 O d (fun w => dither_spec O c w g) x in
-  s_err s = false /\ s_rng s = g_adv G r (length x) /\ s_warn s = negb (opt_eqb ax None) /\
-  out_arr s = Some (Build_arr d y) /\
-  (if ip && dtype_eqb d F64
-   then aliases_input s = true /\ input_after s = Build_arr d y
-   else aliases_input s = false /\ input_after s = Build_arr d x).
+(* coefficient 0 is the identity (for every length, dtype, in_place, state) *)
+Lemma dither_zero_identity_l : forall ip ax d x r, axis_ok ax = true ->
+  out_arr (run ring_ops G rO ip ax dither_prog (Build_arr d x) r) = Some (Build_arr d x).
 Proof.
-  intros c ip ax d x r Hax.
-  destruct (axis_ok_cases ax Hax) as [->|[->| ->]]; destruct ip, d;
-    unfold run, dither_prog, via_f64; cbv -[exec_aug conv preemph_spec dither_spec g_draw g_adv length];
-    rewrite aug_dither_f64 by reflexivity; cbv -[exec_aug conv preemph_spec dither_spec g_draw g_adv length]; rewrite ?conv_same, ?conv_length; repeat split.
+  intros. destruct (dither_values_l ring_ops G rO ip ax d x r H) as (_ & A & _).
+  rewrite A, !conv_ring, zipw_add_zero_noise; [reflexivity|apply g_draw_length].
 Qed.
 
-End AnyOps.
+Lemma noise_ring : forall c g, noise_of ring_ops c g = map (rmul c) g.
+Proof. intros. unfold noise_of. apply map_ext. intros. cbn. ring. Qed.
+
+(* the output is signal + coeff * g with g the unit deviates of the state:
+   linear in coeff, g depends neither on coeff nor on the signal *)
+Lemma dither_linear_l : forall c ip ax d x r, axis_ok ax = true ->
+  out_arr (run ring_ops G c ip ax dither_prog (Build_arr d x) r) =
+  Some (Build_arr d (zipw radd x (map (rmul c) (g_draw G r (length x))))).
+Proof.
+  intros. destruct (dither_values_l ring_ops G c ip ax d x r H) as (_ & A & _).
+  now rewrite A, !conv_ring, noise_ring.
+Qed.
+
+Lemma zipw_sub_add : forall x n, length n = length x -> zipw rsub (zipw radd x n) x = n.
+Proof.
+  induction x as [|a x IH]; intros [|z n] H; cbn in *; try reflexivity; try discriminate.
+  f_equal; [ring|]. apply IH. lia.
+Qed.
+
+(* output - input is the same vector for any two signals of one length *)
+Lemma dither_signal_independent_l : forall c ip ip' ax ax' d d' x x' r y y',
+  axis_ok ax = true -> axis_ok ax' = true -> length x = length x' ->
+  out_arr (run ring_ops G c ip ax dither_prog (Build_arr d x) r) = Some y ->
+  out_arr (run ring_ops G c ip' ax' dither_prog (Build_arr d' x') r) = Some y' ->
+  zipw rsub (a_data y) x = zipw rsub (a_data y') x'.
+Proof.
+  intros c ip ip' ax ax' d d' x x' r y y' H H' L E E'.
+  rewrite dither_linear_l in E, E' by assumption.
+  injection E as <-. injection E' as <-. cbn [a_data].
+  rewrite !zipw_sub_add by (now rewrite map_length, g_draw_length). now rewrite L.
+Qed.
+
+(* scaling the coefficient by a scales output - input by a *)
+Lemma dither_scales_l : forall a c ip ax d x r y ya,
+  axis_ok ax = true ->
+  out_arr (run ring_ops G c ip ax dither_prog (Build_arr d x) r) = Some y ->
+  out_arr (run ring_ops G (rmul a c) ip ax dither_prog (Build_arr d x) r) = Some ya ->
+  zipw rsub (a_data ya) x = map (rmul a) (zipw rsub (a_data y) x).
+Proof.
+  intros a c ip ax d x r y ya H E E'.
+  rewrite dither_linear_l in E, E' by assumption.
+  injection E as <-. injection E' as <-. cbn [a_data].
+  rewrite !zipw_sub_add by (now rewrite map_length, g_draw_length).
+  rewrite map_map. apply map_ext. intros. ring.
+Qed.
+
+(* pre-emphasis is linear in the signal (superposition) *)
+Lemma preemph_rec_linear : forall c a b t t' p p', length t = length t' ->
+  preemph_rec ring_ops c (radd (rmul a p) (rmul b p'))
+     (zipw (fun u v => radd (rmul a u) (rmul b v)) t t') =
+  zipw (fun u v => radd (rmul a u) (rmul b v))
+     (preemph_rec ring_ops c p t) (preemph_rec ring_ops c p' t').
+Proof.
+  intros c a b t. induction t as [|u t IH]; intros [|v t'] p p' H; cbn in *;
+    try reflexivity; try discriminate.
+  f_equal; [ring|]. apply IH. lia.
+Qed.
+
+Lemma preemph_superposition_l : forall c a b x x', length x = length x' ->
+  preemph_spec ring_ops c (zipw (fun u v => radd (rmul a u) (rmul b v)) x x') =
+  zipw (fun u v => radd (rmul a u) (rmul b v)) (preemph_spec ring_ops c x) (preemph_spec ring_ops c x').
+Proof.
+  intros c a b [|u x] [|v x'] H; cbn in *; try reflexivity; try discriminate.
+  f_equal. apply preemph_rec_linear. lia.
+Qed.
+
+(* pre-emphasis loses nothing: the one-pole recursion x[i] = y[i] + c x[i-1] undoes it *)
+Fixpoint deemph (c prev : R) (l : list R) : list R :=
+  match l with
+  | [] => []
+  | y :: t => let x := radd y (rmul c prev) in x :: deemph c x t
+  end.
+
+Lemma deemph_rec : forall c t p, deemph c p (preemph_rec ring_ops c p t) = t.
+Proof.
+  intros c t. induction t as [|u t IH]; intros p; [reflexivity|].
+  cbn [preemph_rec deemph]. cbn [o_sub o_mul ring_ops].
+  replace (radd (rsub u (rmul c p)) (rmul c p)) with u by ring.
+  f_equal. apply IH.
+Qed.
+
+Lemma preemph_invertible_l : forall c x, deemph c rO (preemph_spec ring_ops c x) = x.
+Proof.
+  intros c [|u t]; [reflexivity|]. cbn [preemph_spec deemph].
+  replace (radd u (rmul c rO)) with u by ring. f_equal. apply deemph_rec.
+Qed.
+
+(* torch functional forms compute the same values as the numpy classes *)
+Lemma preemph_rec_zero : forall c x, preemph_rec ring_ops c rO x = preemph_spec ring_ops c x.
+Proof.
+  intros c [|u t]; [reflexivity|]. cbn [preemph_rec preemph_spec]. f_equal. cbn. ring.
+Qed.
+
+Lemma torch_preemph_eq_l : forall c ip ax x r, axis_ok ax = true ->
+  option_map (@a_data R) (out_arr (run ring_ops G c ip ax preemph_prog (Build_arr F64 x) r)) =
+  fst (trun ring_ops G c torch_preemph_prog x r).
+Proof.
+  intros. destruct (preemph_values_l ring_ops G c ip ax F64 x r H) as (_ & A).
+  rewrite A, torch_preemph_run_l, !conv_ring, preemph_rec_zero. reflexivity.
+Qed.
+
+(* same deviates => same dithered values *)
+Lemma torch_dither_eq_l : forall c ip ax x r, axis_ok ax = true ->
+  option_map (@a_data R) (out_arr (run ring_ops G c ip ax dither_prog (Build_arr F64 x) r)) =
+  fst (trun ring_ops G c torch_dither_prog x r).
+Proof.
+  intros. rewrite dither_linear_l by assumption. now rewrite torch_dither_run_l.
+Qed.
+
+End RingInst.
+
+(* the hypotheses are satisfiable: integers, a non-trivial signal *)
+Definition zgen : rngm Z Z := {| g_next := fun s k => s + 7 * Z.of_nat k; g_adv := fun s n => s + Z.of_nat n |}.
+Definition zops := ring_ops Z 0 Z.add Z.mul Z.sub.
+
+Example preemph_example :
+  out_arr (run zops zgen 3 false None preemph_prog (Build_arr I16 [5; 7; -2; 10]) 0)
+  = Some (Build_arr I16 [5; -8; -23; 16]).
+Proof. reflexivity. Qed.
+
+Example dither_example :
+  out_arr (run zops zgen 2 true (Some 0) dither_prog (Build_arr F64 [5; 7; -2]) 1)
+  = Some (Build_arr F64 [7; 23; 28])
+  /\ aliases_input (run zops zgen 2 true (Some 0) dither_prog (Build_arr F64 [5; 7; -2]) 1) = true.
+Proof. split; reflexivity. Qed.
+
+Example ring_instance_Z : ring_theory 0 1 Z.add Z.mul Z.sub Z.opp (@eq Z).
+Proof. exact Zth. Qed.
